@@ -110,6 +110,7 @@ type fnCtx struct {
 	compDeclared map[string]bool
 	strlits map[string]string
 	flags   map[string]string
+	fired   map[int]bool
 	implDone map[string]bool
 	rets    []retSite
 	params  []ParamInfo
